@@ -687,7 +687,7 @@ func main() {
 		n := corpusNode
 		victim, thief := sn.K(0), sn.K(5)
 		award := n.Ledger.GenesisBlock.CalcAward(n.LedgerHeight() + 1)
-		for _, name := range []string{"sole-coinbase-spends-victim-output", "sole-coinbase-writes-key", "sole-coinbase-honest-shape"} {
+		for _, name := range []string{"sole-coinbase-spends-victim-output", "sole-coinbase-writes-key", "sole-coinbase-pays-itself-a-fee", "sole-coinbase-honest-shape"} {
 			y := &pb.Transaction{Version: 1, Coinbase: true, Desc: []byte("award"), Timestamp: 4243,
 				TxOutputs: []*protos.TxOutput{{ToAddr: []byte(thief.Address), Amount: award.Bytes()}}}
 			mustRefuse := true
@@ -709,6 +709,10 @@ func main() {
 				}
 				y.TxInputsExt = []*protos.TxInputExt{in}
 				y.TxOutputsExt = []*protos.TxOutputExt{{Bucket: "vb1", Key: []byte("forged-by-coinbase"), Value: []byte("unsigned")}}
+			case "sole-coinbase-pays-itself-a-fee":
+				// a fee ("$") output is handed to the proposer out of the paying transaction's inputs;
+				// a coinbase has none: the payment is new tokens outside the total supply (C02)
+				y.TxOutputs = append(y.TxOutputs, &protos.TxOutput{ToAddr: []byte("$"), Amount: big.NewInt(5).Bytes()})
 			case "sole-coinbase-honest-shape":
 				mustRefuse = false // the oracle can say yes: exactly what a miner's award looks like
 			}
@@ -773,7 +777,7 @@ func main() {
 	r.Floor("attacks", 60)
 	r.Floor("attacks.contract-spend", 3)
 	r.Floor("attacks.forged-copy-in-flight", 40)
-	r.Floor("attacks.sole-coinbase", 3)
+	r.Floor("attacks.sole-coinbase", 4)
 	r.Floor("blockpath.trials", 200)
 	r.Floor("blockpath.trials.original-in-pool", 80)
 	r.Floor("blockpath.honest", 10)
